@@ -102,6 +102,16 @@ def gen_conn():
         for nm in table.get(e, []):
             rows.append('(%d, %s)' % (i, lean_bytes(nm.encode())))
     body += "def streamErrorNames : List (Nat × List UInt8) := [\n  " + ",\n  ".join(rows) + "]\n"
+    # the buffers the XEP-0198 counters are printed into (`<a h=…/>`, `<resume h=…/>`): a uint32
+    # needs 10 digits + NUL
+    hb = []
+    for text, fn in ((conn, "_conn_sm_handle_stanza"), (auth, "_handle_features_sasl")):
+        m = re.search(r"\bchar\s+h\s*\[\s*(\d+)\s*\]", fn_body(text, fn))
+        if not m:
+            raise ExtractError("buffer `char h[N]` not found in %s" % fn)
+        hb.append(int(m.group(1)))
+    body += "/-- sizes of the `char h[N]` buffers of `_conn_sm_handle_stanza` and `_handle_features_sasl` -/\n"
+    body += "def smHBufSizes : List Nat := [%s]\n" % ", ".join(map(str, hb))
     body += "\nend Strophe.Gen\n"
     write("Conn", body)
 
